@@ -139,3 +139,22 @@ Fixpoint coins_equal (a b : coins) : option bool :=
     else Some false
   | _, _ => Some false
   end.
+
+(* NewCoins: drop zero coins, sort by denomination, panic on a duplicate or an invalid set *)
+Fixpoint insert_coin (c : coin) (l : coins) : coins :=
+  match l with
+  | [] => [c]
+  | x :: r => match bcompare (fst c) (fst x) with Gt => x :: insert_coin c r | _ => c :: l end
+  end.
+Definition sort_coins (l : coins) : coins := fold_right insert_coin [] l.
+Fixpoint has_dup (l : coins) : bool :=
+  match l with
+  | x :: ((y :: _) as r) => beqb (fst x) (fst y) || has_dup r
+  | _ => false
+  end.
+Definition new_coins (cs : coins) : option coins :=
+  match remove_zero cs with
+  | [] => Some []
+  | nz => let s := sort_coins nz in
+          if has_dup s then None else if coins_valid s then Some s else None
+  end.
